@@ -31,7 +31,7 @@ CONSTANTS
     ServerName,     \* server.server_name
     ServerPort,     \* server.server_port (advertised port)
     HiCode,         \* percent code of the representative chosen for "^" ("FF", "E9", ...)
-    Fixes           \* which of the proposed repairs the code under test has: subset of {"wap", "gemini", "spartan"}
+    Fixes           \* which of the proposed repairs the code under test has: subset of {"wap", "gemini", "spartan", "mapfile"}
 
 cTAB  == "\t"
 cCR   == "\r"
@@ -260,6 +260,12 @@ Follow(p, t, base, q) ==
       [] p = "S" ->
             Rq(ServerName \o " " \o RefPath(base, t.href) \o " " \o ToString(Len(q)) \o cCRLF, q, tls)
 
+\* what a real browser / WAP gateway adds to the request line: the HTTP-family views are exercised both bare
+\* and with this header block (http.py reads the headers; C06 must hold for what real clients send)
+BrowserHeaders == "Host: localhost" \o cCRLF \o "Accept: text/html,application/xhtml+xml,*/*;q=0.8" \o cCRLF
+                  \o "Accept-Encoding: gzip, deflate" \o cCRLF \o "User-Agent: Mozilla/5.0 (verif)" \o cCRLF
+WithHeaders(rq, hdr) == IF hdr THEN [rq EXCEPT !.rest = BrowserHeaders \o rq.rest] ELSE rq
+
 \* the reference by which a client of p asks for the root menu
 RootRef(p) == IF p \in GopherViews THEN "" ELSE IF p = "W" THEN WapTop \o "/" ELSE "/"
 RootTarget(p) == IF p \in GopherViews
@@ -397,16 +403,21 @@ Why(p, rq) ==
 Anchors == {"/zz"}                      \* ordinary file that is always there
 NMsgs == 1                              \* messages per mailbox
 
-FsName(c) == IF c.k = "zip" THEN c.n \o ".zip" ELSE c.n
+\* kind "mapfile": a named gophermap FILE n.gophermap (served as a menu by BuckGophermapHandler) with a relative,
+\* a description-only and an absolute line; as subject it sits in the root and points at /zz, as inner entry of a
+\* directory it points at its sibling "leaf"
+FsName(c) == IF c.k = "zip" THEN c.n \o ".zip" ELSE IF c.k = "mapfile" THEN c.n \o ".gophermap" ELSE c.n
 Subj(c) == "/" \o FsName(c)
-InnerSel(c) == Subj(c) \o "/" \o c.m
+InnerName(c) == IF c.ik = "mapfile" THEN c.m \o ".gophermap" ELSE c.m
+InnerSel(c) == Subj(c) \o "/" \o InnerName(c)
 MsgSel(c, flag) == Subj(c) \o "|" \o flag \o "1"
 
 Stat(c, sel) ==          \* "dir" / "file" / "none": VFS_Real.stat(root + selector minus one trailing slash)
     LET s == IF Len(sel) > 0 /\ Last1(sel) = "/" THEN SubSeq(sel, 1, Len(sel) - 1) ELSE sel IN
     IF s = "" THEN "dir"
     ELSE IF s = Subj(c) THEN (IF c.k \in {"dir", "mapdir", "maildir"} THEN "dir" ELSE "file")
-    ELSE IF c.k \in {"dir", "mapdir"} /\ s = InnerSel(c) THEN c.ik
+    ELSE IF c.k \in {"dir", "mapdir"} /\ s = InnerSel(c) THEN (IF c.ik = "mapfile" THEN "file" ELSE c.ik)
+    ELSE IF c.k = "dir" /\ c.ik = "mapfile" /\ s = Subj(c) \o "/leaf" THEN "file"
     ELSE IF c.k \in {"dir", "mapdir"} /\ c.ik = "dir" /\ s = InnerSel(c) \o "/leaf" THEN "file"
     ELSE IF c.k = "mapdir" /\ s = Subj(c) \o "/gophermap" THEN "file"
     ELSE IF c.k = "maildir" /\ s \in {Subj(c) \o "/new", Subj(c) \o "/cur", Subj(c) \o "/tmp"} THEN "dir"
@@ -475,11 +486,19 @@ Serve(c, sel, hl) ==
 
 \* the model's listings (order irrelevant for closure): entries as the shared directory walk builds them
 Entry(type, name, sel) == [type |-> type, name |-> name, sel |-> sel, host |-> "", port |-> 0]
-TypeOf(c, sel, hl) == LET r == Serve(c, sel, hl) IN IF r.ok /\ r.obj = "menu" THEN "1" ELSE "0"
+\* a *.gophermap FILE is listed with the type and MIME type of a plain text file (gophermap.py getentry:
+\* populatefromvfs) although it is served as a menu - named deviation MapFileAsDocument
+IsMapFile(c, sel, hl) == Stat(c, sel) = "file" /\ Serve(c, sel, hl).by = "BuckGophermapHandler"
+TypeOf(c, sel, hl) == LET r == Serve(c, sel, hl) IN
+                      IF IsMapFile(c, sel, hl) /\ "mapfile" \notin Fixes THEN "0"
+                      ELSE IF r.ok /\ r.obj = "menu" THEN "1" ELSE "0"
+\* the lines of the map files gamma writes: relative selector, description only (selector = display string), absolute
+MapLines(base, target) == {Entry("0", "relative", base \o "/" \o target), Entry("0", target, base \o "/" \o target),
+                           Entry("0", "absolute", "/zz")}
 
 MaildirParts(c) == {Subj(c) \o "/new", Subj(c) \o "/cur", Subj(c) \o "/tmp"}
 Dirs(c, hl) == {"/"} \cup (IF Serve(c, Subj(c), hl).obj = "menu" THEN {Subj(c)} ELSE {})
-                     \cup (IF c.k \in {"dir", "mapdir", "zip"} /\ c.ik = "dir"
+                     \cup (IF c.k \in {"dir", "mapdir", "zip"} /\ c.ik \in {"dir", "mapfile"}
                               /\ Serve(c, InnerSel(c), hl).obj = "menu" THEN {InnerSel(c)} ELSE {})
                      \cup (IF c.k = "maildir" /\ Serve(c, Subj(c), hl).by = "UMNDirHandler" THEN MaildirParts(c) ELSE {})
 
@@ -490,13 +509,16 @@ ListingAll(c, d, hl) ==
         CASE by = "MaildirFolderHandler" -> {Entry("0", "subject", MsgSel(c, "/MAILDIR-MESSAGE/"))}
           [] by = "MBoxFolderHandler" -> {Entry("0", "subject", MsgSel(c, "/MBOX-MESSAGE/"))}
           [] by = "BuckGophermapHandler" ->     \* gophermap.py: a selector starting with "URL:" is not made relative
+                IF c.k = "mapfile" THEN MapLines("", "zz") ELSE
                 {Entry(TypeOf(c, InnerSel(c), hl), c.m, IF StartsWith(c.m, "URL:") THEN c.m ELSE InnerSel(c))}
           [] by = "ZIPHandler" -> {Entry(TypeOf(c, InnerSel(c), hl), c.m, InnerSel(c))}
           [] by = "UMNDirHandler" ->
                 IF c.k = "maildir" THEN {Entry("1", SubSeq(x, Len(Subj(c)) + 2, Len(x)), x) : x \in MaildirParts(c)}
-                ELSE {Entry(TypeOf(c, InnerSel(c), hl), c.m, InnerSel(c))}
+                ELSE {Entry(TypeOf(c, InnerSel(c), hl), InnerName(c), InnerSel(c))}
+                     \cup (IF c.ik = "mapfile" THEN {Entry("0", "leaf", Subj(c) \o "/leaf")} ELSE {})
           [] OTHER -> {}
     ELSE IF c.k = "maildir" THEN (IF d = Subj(c) \o "/new" THEN {Entry("0", "msg1", d \o "/msg1")} ELSE {})
+    ELSE IF c.ik = "mapfile" THEN MapLines(Subj(c), "leaf")
     ELSE {Entry("0", "leaf", d \o "/leaf")}
 
 \* the listing of d is produced by whichever handler serves d (Serve(..).by), exactly as for a request.
@@ -528,7 +550,8 @@ LinkVerdict(p, c, hl, d, e) ==
         v  == IF ~IsLocal(p, t) THEN "ok"
               ELSE IF Why(p, rq) # "none" THEN Why(p, rq)
               ELSE IF ~sv.ok THEN "NotServed"
-              ELSE IF Advertised(p, e) # "any" /\ sv.obj # Advertised(p, e) THEN "WrongKind"
+              ELSE IF Advertised(p, e) # "any" /\ sv.obj # Advertised(p, e)
+                   THEN (IF IsMapFile(c, r.sel, hl) THEN "MapFileAsDocument" ELSE "WrongKind")
               ELSE IF r.sel # SlashNorm(e.sel) THEN "OtherObject"
               ELSE "ok"
     IN \* a file whose NAME starts with "URL:" is rendered by the URL-based renderers as the reference that
@@ -547,7 +570,7 @@ CaseExpressible(p, c) == Expressible(p, c.n) /\ (c.k \in {"dir", "mapdir", "zip"
 
 \* deviations of the pinned code that are recorded as findings (known_findings.json); everything else must hold
 KnownWhy == {"CapturedBy_WAPProtocol", "CapturedBy_SpartanProtocol", "QueryPrefixCapture", "UrlNameAsReference",
-             "IconRouteCapture"}
+             "IconRouteCapture", "MapFileAsDocument"}
 Closure(p, c, hl) == CaseExpressible(p, c) => \A f \in Failing(p, c, hl) : f[3] \in KnownWhy
 ClosureStrict(p, c, hl) == CaseExpressible(p, c) => Failing(p, c, hl) = {}
 =============================================================================
